@@ -770,6 +770,61 @@ def fam_soup(rng, opts=None):
     return b.program()
 
 
+PARAM_VARIANTS = {
+    "ConvexIndicatorFunction": [{"D": 1.5}, {"D": "inf"}],
+    "ConvexSupportFunction": [{"M": 2.0}, {"M": "inf"}],
+    "ConvexLipschitzFunction": [{"M": 1.0}, {"M": 3.0}],
+    "SmoothConvexLipschitzFunction": [{"L": 2.0, "M": 1.0}, {"L": 1.0, "M": 3.0}],
+}
+
+
+def fam_classcover(rng, opts=None):
+    """Every class with at least three samples: named and unnamed points, a repeated evaluation at a named point
+    (non-differentiable classes), a stationary point declared last; boxed so that any metric is bounded."""
+    opts = opts or {}
+    b = Builder(rng)
+    b.meta["family"] = "classcover"
+    cls = opts.get("cls") or b.pick([c for c in CLASSES])
+    variant = opts.get("variant", rng.randrange(2))
+    params = None
+    if cls in PARAM_VARIANTS:
+        params = dict(PARAM_VARIANTS[cls][variant % 2])
+    kw = {}
+    if variant % 2 == 0:
+        kw["name"] = "fun"
+    f = b.func(cls, params=params, **kw)
+    pts = [b.init(name="x0"), b.init(name=None if variant % 2 else "x1")]
+    pts.append(b.pcomb([[1, pts[0]], [-0.5, pts[1]]]))
+    if cls == "NonexpansiveOperator" and variant % 2 == 0:
+        # infimal displacement vector
+        v = b.init(name="v")
+        [o for o in b.ops if o.get("out") == f][0]["v"] = v
+        # the function op was emitted before v exists: move it after
+        fop = [o for o in b.ops if o.get("out") == f][0]
+        b.ops.remove(fop)
+        b.ops.append(fop)
+        b.feat("infimal_displacement")
+    for p in pts:
+        b.oracle(f, p)
+    nondiff = not CLASSES[cls][1]
+    if nondiff:
+        b.oracle(f, pts[0])          # second subgradient at the named point x0
+        b.feat("repeated_subgradient")
+    if cls == "LinearOperator":
+        for p in pts[:2]:
+            g = b.nm("g")
+            b.emit({"op": "tgrad", "f": f, "x": p, "g": g})
+            b.points.append(g)
+    if cls != "SmoothStronglyConvexQuadraticFunction" and cls != "LinearOperator":
+        b.stat(f, name=None if variant % 2 else "xs")
+        b.feat("stat_after_x0")
+    if cls == "BlockSmoothConvexFunction":
+        b.feat("partition")
+    _box(b, 2.0)
+    b.metric(b.expr(_rand_expr_terms(b, nterms=3, allow_const=False)))
+    return b.program()
+
+
 def fam_big(rng, opts=None):
     """More than 127 scalar constraints (row indices beyond one byte)."""
     opts = opts or {}
@@ -790,7 +845,7 @@ def fam_big(rng, opts=None):
     return b.program()
 
 
-FAMILIES = {"big": fam_big, "method": fam_method, "operator": fam_operator, "linear": fam_linear, "soup": fam_soup}
+FAMILIES = {"big": fam_big, "classcover": fam_classcover, "method": fam_method, "operator": fam_operator, "linear": fam_linear, "soup": fam_soup}
 
 
 def gen_program(rng, family=None, opts=None):
